@@ -247,108 +247,9 @@ theorem frame_of_perp {len : V3 α → α} (hlen : LenSpec len) {t p : V3 α} (h
     apply V3.ext' <;> simp only [smul, vsub] <;> field_simp <;> ring
 
 end Frames
-/-! ## alignZAxisWithTargetDir -/
-section AlignZ
+section CrossZero
 variable {α : Type} [Field α] [LinearOrder α] [IsStrictOrderedRing α]
-
-/-- the effective target / up / perpendicular chosen by `alignZAxisWithTargetDir` -/
-def azTarget (len : V3 α → α) (t : V3 α) : V3 α := if len t = 0 then ⟨0, 0, 1⟩ else t
-def azUp (len : V3 α → α) (t u : V3 α) : V3 α :=
-  let u1 : V3 α := if len u = 0 then ⟨0, 1, 0⟩ else u
-  if len (cross u1 t) = 0 then
-    (if len (cross t ⟨1, 0, 0⟩) = 0 then cross t ⟨0, 0, 1⟩ else cross t ⟨1, 0, 0⟩)
-  else u1
-
-theorem alignZSpec_eq (len : V3 α → α) (t u : V3 α) :
-    alignZSpec len t u =
-      frameM44 (nrm len (cross (azUp len (azTarget len t) u) (azTarget len t)))
-        (nrm len (cross (azTarget len t) (cross (azUp len (azTarget len t) u) (azTarget len t))))
-        (nrm len (azTarget len t)) ⟨0, 0, 0⟩ := rfl
-
-theorem azTarget_ne_zero {len : V3 α → α} (hlen : LenSpec len) (t : V3 α) : azTarget len t ≠ ⟨0, 0, 0⟩ := by
-  unfold azTarget
-  split_ifs with h
-  · simp
-  · exact fun h0 => h ((len_eq_zero_iff hlen t).mpr h0)
-
-/-- whatever `upDir` is, the up vector finally used is not parallel to the (non-zero) target -/
-theorem azUp_cross_ne_zero {len : V3 α → α} (hlen : LenSpec len) {t : V3 α} (ht : t ≠ ⟨0, 0, 0⟩) (u : V3 α) :
-    cross (azUp len t u) t ≠ ⟨0, 0, 0⟩ := by
-  unfold azUp
-  simp only
-  split_ifs with h1 h2 h3 h4 h5
-  all_goals first
-    | exact fun h0 => (by assumption : ¬ len _ = 0) ((len_eq_zero_iff hlen _).mpr h0)
-    | skip
-  -- remaining: the two fallback choices (twice: for zero and non-zero upDir)
-  all_goals
-    first
-    | -- `t × x̂ = 0`: t = (tx, 0, 0), up := t × ẑ
-      (have h2' := (len_eq_zero_iff hlen _).mp (by assumption : len (cross t ⟨1, 0, 0⟩) = 0)
-       obtain ⟨tx, ty, tz⟩ := t
-       simp only [cross, V3.mk.injEq, mul_zero, mul_one, sub_zero, zero_sub, neg_eq_zero, sub_self] at h2'
-       obtain ⟨-, hz, hy⟩ := h2'
-       subst hz; subst hy
-       have hx : tx ≠ 0 := by intro h; apply ht; simp [h]
-       simp [cross, hx])
-    | -- `t × x̂ ≠ 0`: up := w = t × x̂ ⟂ t, so |w × t|² = |w|²|t|² ≠ 0
-      (have hw : cross t (⟨1, 0, 0⟩ : V3 α) ≠ ⟨0, 0, 0⟩ := fun h0 => (by assumption : ¬ len (cross t ⟨1, 0, 0⟩) = 0) ((len_eq_zero_iff hlen _).mpr h0)
-       apply ne_zero_of_dot
-       rw [lagrange, dot_cross_left, ne_eq, zero_pow two_ne_zero, sub_zero]
-       exact mul_ne_zero (dot_ne_zero hw) (dot_ne_zero ht))
-
-/-- ALL paths (zero target, zero up, parallel, generic): an orthonormal right-handed frame without translation,
-whose z-row is the normalised (effective) target -/
-theorem alignZSpec_isFrame {len : V3 α → α} (hlen : LenSpec len) (t u : V3 α) :
-    IsFrame (alignZSpec len t u) ∧ row3 (alignZSpec len t u) = ⟨0, 0, 0⟩ ∧
-      row2 (alignZSpec len t u) = nrm len (azTarget len t) := by
-  rw [alignZSpec_eq]
-  refine ⟨⟨?_, isAffine_frameM44 _ _ _ _⟩, rfl, rfl⟩
-  rw [rot3_frameM44]
-  exact frame_of_perp hlen (azTarget_ne_zero hlen t) (azUp_cross_ne_zero hlen (azTarget_ne_zero hlen t) u) (dot_cross_right _ _)
-
-
 theorem cross_zero_left (t : V3 α) : cross (⟨0, 0, 0⟩ : V3 α) t = ⟨0, 0, 0⟩ := by simp [cross]
-
-/-- generic inputs: the documented axes -/
-theorem alignZSpec_main {len : V3 α → α} (hlen : LenSpec len) {t u : V3 α} (ht : t ≠ ⟨0, 0, 0⟩)
-    (hut : cross u t ≠ ⟨0, 0, 0⟩) :
-    alignZSpec len t u = frameM44 (nrm len (cross u t)) (nrm len (cross t (cross u t))) (nrm len t) ⟨0, 0, 0⟩ := by
-  have hu : u ≠ ⟨0, 0, 0⟩ := by rintro rfl; exact hut (cross_zero_left t)
-  have e1 : azTarget len t = t := by simp [azTarget, len_ne_zero hlen ht]
-  have e2 : azUp len t u = u := by simp [azUp, len_ne_zero hlen hu, len_ne_zero hlen hut]
-  rw [alignZSpec_eq, e1, e2]
-
-/-- the up vector substituted when `upDir` is zero or parallel to the target -/
-def azFallbackUp (len : V3 α → α) (t : V3 α) : V3 α :=
-  if len (cross t ⟨1, 0, 0⟩) = 0 then cross t ⟨0, 0, 1⟩ else cross t ⟨1, 0, 0⟩
-
-theorem alignZSpec_zero_target {len : V3 α → α} (hlen : LenSpec len) (u : V3 α) :
-    alignZSpec len ⟨0, 0, 0⟩ u = alignZSpec len ⟨0, 0, 1⟩ u := by
-  have h0 : len (⟨0, 0, 0⟩ : V3 α) = 0 := (len_eq_zero_iff hlen _).mpr rfl
-  have h1 : len (⟨0, 0, 1⟩ : V3 α) ≠ 0 := len_ne_zero hlen (by simp)
-  rw [alignZSpec_eq, alignZSpec_eq]
-  simp [azTarget, h0, h1]
-theorem alignZSpec_zero_up {len : V3 α → α} (hlen : LenSpec len) (t : V3 α) :
-    alignZSpec len t ⟨0, 0, 0⟩ = alignZSpec len t ⟨0, 1, 0⟩ := by
-  have h0 : len (⟨0, 0, 0⟩ : V3 α) = 0 := (len_eq_zero_iff hlen _).mpr rfl
-  have h1 : len (⟨0, 1, 0⟩ : V3 α) ≠ 0 := len_ne_zero hlen (by simp)
-  rw [alignZSpec_eq, alignZSpec_eq]
-  simp [azUp, h0, h1]
-theorem alignZSpec_parallel {len : V3 α → α} (hlen : LenSpec len) {t u : V3 α} (ht : t ≠ ⟨0, 0, 0⟩) (hu : u ≠ ⟨0, 0, 0⟩)
-    (hut : cross u t = ⟨0, 0, 0⟩) :
-    alignZSpec len t u = alignZSpec len t (azFallbackUp len t) ∧ cross (azFallbackUp len t) t ≠ ⟨0, 0, 0⟩ := by
-  have h0 : len (⟨0, 0, 0⟩ : V3 α) = 0 := (len_eq_zero_iff hlen _).mpr rfl
-  have e1 : azUp len t u = azFallbackUp len t := by
-    simp [azUp, azFallbackUp, len_ne_zero hlen hu, hut, h0]
-  have hw := azUp_cross_ne_zero hlen ht u
-  rw [e1] at hw
-  have hw0 : azFallbackUp len t ≠ ⟨0, 0, 0⟩ := by
-    intro h; rw [h] at hw; exact hw (cross_zero_left t)
-  have e2 : azUp len t (azFallbackUp len t) = azFallbackUp len t := by
-    simp [azUp, len_ne_zero hlen hw0, len_ne_zero hlen hw]
-  have e3 : azTarget len t = t := by simp [azTarget, len_ne_zero hlen ht]
-  refine ⟨?_, hw⟩
-  rw [alignZSpec_eq, alignZSpec_eq, e3, e1, e2]
-end AlignZ
+end CrossZero
+/- the lemmas about `alignZAxisWithTargetDir` are in `Lemmas/C09AlignZ.lean` -/
 end ImathVerif.C09
